@@ -8,7 +8,8 @@ AREA = "c09"
 LEAN_PROPS = "Litep2pVerif.Props.C09"
 THEOREMS = ["held_not_closed", "idle_closed_at", "idle_run_closed_at", "poll_settles", "ping_no_prolong", "primary_secondary",
             "inbound_negotiation_holds_connection",
-            "half_closed_substream_holds_connection", "fallback_name_substream_holds_connection"]
+            "half_closed_substream_holds_connection", "fallback_name_substream_holds_connection",
+            "clogged_open_keeps_handle"]
 CONSTS = ["KEEP_ALIVE_TIMEOUT_SECS"]
 CONST_TABLE = [
     ("KEEP_ALIVE_TIMEOUT_SECS", "src/transport/mod.rs",
@@ -63,7 +64,10 @@ RULE = ("tcploop: fixed, negotiation-spanning (inbound header-only / stalled out
         "model; c09: seeded schedules over 1-3 protocols (keep-alive Yes/No mixes), timeouts 40/100/250 ms, 2 peers with up to two "
         "overlapping connections: establishment, opens by every protocol, command receipt, success/failure answers, "
         "inbound substreams, substreams held across several periods and dropped, time steps before/at/after every "
-        "deadline (T-1, T, T+1, multiples), closes; a case is non-trivial if some connection was seen alive, later seen "
+        "deadline (T-1, T, T+1, multiples), closes; 10 `clog` schedules per quick run (1 per 100 cases otherwise): 256 open "
+        "requests nobody reads (by one or all protocols, sometimes split by a clock step), 1-3 requests of a keep-alive protocol "
+        "answered ChannelClogged, then either the connection task receives and refuses all 256 (every permit gone) or not, polls "
+        "at T-1 / T after the last activity; a case is non-trivial if some connection was seen alive, later seen "
         "without strong sender, and a keep-alive protocol opened a substream; distinct = distinct transcripts by SHA-256")
 TRUSTED_BASE = ["Lean 4.33 kernel", "axioms: propext, Classical.choice, Quot.sound only",
                 "hand-written model Model/Service/KeepAlive.lean tied to transport_service.rs/connection.rs/protocol_set.rs by this run",
